@@ -214,7 +214,8 @@ def square_root_mod_prime(a, p):
         d = pow(a, (p - 1) // 4, p)
         if d == 1:
             return pow(a, (p + 3) // 8, p)
-        assert d == p - 1
+        if d != p - 1:
+            raise SquareRootError("p is not prime")
         return (2 * a * pow(4 * a, (p - 5) // 8, p)) % p
 
     if PY2:
